@@ -45,6 +45,7 @@ def restoreContainerFrom (F : FloatOps α) (mb : MbLen) (g : G) (k : Byte) (s : 
         let zs := tb.drop g.depth
         if k = 123 ∨ k = 47 then
           if k = 123 ∧ n > maxArray then .err .arraySize else
+          if k = 47 ∧ n > maxClass then .err .cls else
           match rdElems F fuel s n zs .nil (if k = 123 then .array else .cls) with
           | .ok st => .ok (if k = 123 then .arr st.val else .cls st.val)
           | .err e => .err e
